@@ -105,7 +105,10 @@ def b1(cx):
             for n in own_nodes(fn):
                 if not (isinstance(n, ast.Subscript) and isinstance(n.slice, ast.Slice)):
                     continue
-                base = norm(n.value)
+                bv = n.value
+                while isinstance(bv, ast.Call) and isinstance(bv.func, ast.Name) and bv.func.id == "memoryview" and len(bv.args) == 1:
+                    bv = bv.args[0]  # memoryview(x)[a:b] bounds the same bytes of x (for byte-sized items)
+                base = norm(bv)
                 if base not in table:
                     continue
                 lo_par, lkind = table[base]
